@@ -20,6 +20,9 @@ CONSTANTS
   LitsR = TRUE
   CarrierKinds = {"name", "allow", "lit"}
   HistBound = 0
+  SameSchemes = {"http", "https", "ftp"}
+  SameUsers = {"none", "user", "userpass", "empty"}
+  SamePorts = {"", "8080"}
   PoolClasses = {}
   Emit = TRUE
 INVARIANTS Safe RedirectsChecked EmitCase
